@@ -73,7 +73,10 @@ def handle : DrvHandler := fun op args =>
         let ex2 ← exOf? (← jField? h "ex2")
         let s : St := { now := now, run := pre, forever := forever, known := true,
                         live := if pre.isSome then 1 else 0, spawns := 0 }
-        let (s', ds) := cycle c { matching, marked, paused, deleted, ex1, ex2 } s
+        let exitAfter ← jBool? (← jField? h "exitAfter")
+        let (s1, ds) := cycle c { matching, marked, paused, deleted, ex1, ex2 } s
+        -- the instance ended inside the cycle but after its own turn: the cycle label followed by `exit`
+        let s' := if exitAfter then (match step c s1 .exit with | some s2 => s2 | none => s1) else s1
         pure (Json.mkObj [("id", .str id), ("spawned", .bool (s'.spawns == 1)),
                           ("run", match s'.run with | some i => instJson i | none => .null),
                           ("forever", .bool s'.forever), ("known", .bool s'.known), ("live", .num (JsonNumber.fromNat s'.live))], ds))
